@@ -192,7 +192,50 @@ func (m *C14Monitor) AfterTx(c *Chain, ctx sdk.Context, tx sdk.Tx, ok bool) {
 	m.refresh(c, ctx)
 }
 
+// outcomes records, per deposit id, what happened to reports and claims (evidence only: shows which hostile
+// encodings were refused at the report, refused at the claim, or claimed)
+func (m *C14Monitor) outcomes(c *Chain, br *BlockResult) {
+	for i, tr := range br.Res.TxResults {
+		if i == 0 && br.Height > 1 {
+			continue
+		}
+		tx, err := c.App.TxConfig().TxDecoder()(br.Txs[i])
+		if err != nil {
+			continue
+		}
+		for _, msg := range tx.GetMsgs() {
+			reason := "ok"
+			if tr.Code != 0 {
+				reason = NormalizeErr(tr.Log)
+				if j := strings.LastIndex(reason, "message index: N: "); j >= 0 {
+					reason = reason[j+18:]
+				}
+				if len(reason) > 48 {
+					reason = reason[:48]
+				}
+			}
+			switch x := msg.(type) {
+			case *bridgetypes.MsgClaimDepositsRequest:
+				for _, id := range x.DepositIds {
+					if id <= 12 {
+						m.st.Bucket("c14|claim-attempt|deposit=%d|%s", id, reason)
+					}
+				}
+			case *oracletypes.MsgSubmitValue:
+				if isB, toLayer := bridgeQueryKind(x.QueryData); isB && toLayer {
+					for id := uint64(5); id <= 12; id++ {
+						if string(x.QueryData) == string(BridgeQuery(true, id)) {
+							m.st.Bucket("c14|hostile-deposit-report|deposit=%d|%s", id, reason)
+						}
+					}
+				}
+			}
+		}
+	}
+}
+
 func (m *C14Monitor) AfterCommit(c *Chain, ctx sdk.Context, br *BlockResult) {
+	m.outcomes(c, br)
 	// no aggregate under a withdrawal query id unless a withdrawal transaction created it
 	id, err := c.App.BridgeKeeper.WithdrawalId.Get(ctx)
 	if err != nil {
